@@ -36,7 +36,7 @@ checks = {
    tech="deterministic simulation: map-iteration order and fetch completion order as seeded schedule dimensions, byte-equality oracle"),
 }
 checks["C20"]=dict(cat="exploration", ref="DESIGN.md §3 C20, §2.2",
-   text="the tool's own concurrent operations (Write/Copy on a shared profile, option get/set, temp-file creation, concurrent web requests, parallel fetch) run as simulated tasks under a seeded scheduler whose hand-offs are invisible to the Go race detector; a race report, deadlock, hang, torn output or a result that differs from the one-at-a-time execution is a violation.",
+   text="the tool's own concurrent operations (Write/Copy on a shared profile, option get/set, temp-file creation, concurrent web requests incl. saving and deleting configurations, parallel fetch, several addresses symbolized through one shared ObjFile over scripted tool pipes, concurrent tool configuration) run as simulated tasks under a seeded scheduler whose hand-offs are invisible to the Go race detector; a race report, deadlock, hang, torn output or a result that differs from the one-at-a-time execution is a violation.",
    note="trusted: runtime.RaceDisable semantics (sync events ignored, memory accesses still tracked); the simulated kernel and scheduler are //go:norace so they add no happens-before edges and no reports of their own",
    tech="deterministic simulation: seeded interleavings (random walk, PCT, function-entry preemption) under the race detector with race-invisible scheduling; sequential-equivalence and linearizability oracles")
 checks["C12"]=dict(cat="fault_enumeration", ref="DESIGN.md §3 C12",
